@@ -219,32 +219,34 @@ def apply_op(g, X, op):
     raise ValueError("unknown op " + k)
 
 
-def run_case(case):
+def run_single(g, case, X):
+    """one call (or, for pipe / session, one chain of calls) on generator object g with input matrix X; -> (out, result matrix)"""
     del STREAM[:]
     del PCT[:]
     kind = case["kind"]
-    np.random.seed(case.get("seed", 0))
-    g = CC(seed=case.get("seed", 0))
-    out = {"info0": info_json(g.dataset_info)}
-    X = mk_X(case)
+    out = {}
     X0 = X.copy()
+    Xres = None
     if kind in ("pipe", "session"):
         shapes = []
+        Xc = X
         for op in case["ops"]:
-            Xin = X
+            Xin = Xc
             Xin0 = Xin.copy()
-            X, _ = apply_op(g, X, op)
-            X = np.asarray(X)
-            shapes.append([int(t) for t in X.shape])
+            Xc, _ = apply_op(g, Xc, op)
+            Xc = np.asarray(Xc)
+            shapes.append([int(t) for t in Xc.shape])
             if not (Xin.shape == Xin0.shape and np.array_equal(Xin, Xin0, equal_nan=True)):
                 out["input_changed"] = True
         out["shapes"] = shapes
         if kind == "pipe":
-            out["X"] = mat(X)
+            out["X"] = mat(Xc)
+        Xres = Xc
     elif kind == "corr":
         Y = g.generate_correlated(X, mk_idx(case["idx"]), r=case["r"][0] / case["r"][1])
         out["X"] = mat(np.asarray(Y, dtype=float))
         out["shape"] = [int(t) for t in np.asarray(Y).shape]
+        Xres = np.asarray(Y)
     elif kind == "labels":
         _, y = apply_op(g, X, dict(case, op="labels"))
         y = np.asarray(y)
@@ -262,6 +264,7 @@ def run_case(case):
             Xn = g.generate_noise(X, y, p=case["p"][0] / case["p"][1], type="categorical" if kind == "noise_cat" else "missing", **kw)
             out["X"] = mat(np.asarray(Xn))
             out["dtype"] = str(np.asarray(Xn).dtype)
+            Xres = np.asarray(Xn)
         except Exception as e:
             out["raised"] = "%s: %s" % (type(e).__name__, e)
         out["stream"] = list(STREAM)
@@ -273,6 +276,7 @@ def run_case(case):
             Xd, yd = g.downsample_dataset(X, y, n=case.get("n"), seed=case.get("rs", 42), reshuffle=case.get("reshuffle", False))
             out["X"] = mat(np.asarray(Xd))
             out["y"] = mat(np.asarray(yd))
+            Xres = np.asarray(Xd)
         except Exception as e:
             out["raised"] = "%s: %s" % (type(e).__name__, e)
         out["stream"] = list(STREAM)
@@ -280,9 +284,56 @@ def run_case(case):
     else:
         raise ValueError("unknown kind " + kind)
     if kind not in ("pipe", "session"):
-        out["x_untouched"] = bool(np.array_equal(X, X0))
+        out["x_untouched"] = bool(X.shape == X0.shape and np.array_equal(X, X0, equal_nan=True))
     else:
         out["x_untouched"] = not out.get("input_changed", False)
+    return out, Xres
+
+
+def history_input(g, step, mats):
+    """the matrix a call of a history is given: a literal, a fresh generate_data() of the same instance, or the input / output
+    matrix of an earlier call (optionally with permuted columns / rows)"""
+    src = step.get("X_from")
+    if src is None:
+        return mk_X(step)
+    if "gen" in src:
+        a = src["gen"]
+        return g.generate_data(a["n_features"], a["n_samples"], cardinality=a.get("cardinality", 5), seed=a.get("seed", 42))
+    M = mats[src["step"]][src.get("what", "out")]
+    if M is None:
+        raise ValueError("history step refers to a call without a result matrix")
+    M = np.array(M)
+    if src.get("colperm") is not None:
+        M = M[:, src["colperm"]]
+    if src.get("rowperm") is not None:
+        M = M[src["rowperm"]]
+    return M
+
+
+def run_case(case):
+    kind = case["kind"]
+    np.random.seed(case.get("seed", 0))
+    g = CC(seed=case.get("seed", 0))
+    info0 = info_json(g.dataset_info)
+    if kind == "history":
+        # several calls on ONE generator object; every call's input, output, RNG answers and the self-description after it are recorded
+        steps, mats = [], []
+        for step in case["steps"]:
+            try:
+                X = np.asarray(history_input(g, step, mats))
+                so, Xres = run_single(g, step, X)
+                so["input"] = mat(X)
+                so["input_dtype"] = str(X.dtype)
+                so["ok"] = True
+                mats.append({"in": X.copy(), "out": None if Xres is None else np.array(Xres)})
+            except Exception as e:
+                so = {"ok": False, "error": "%s: %s" % (type(e).__name__, e), "tb": traceback.format_exc()[-1500:]}
+                mats.append({"in": None, "out": None})
+            so["info"] = info_json(g.dataset_info)
+            steps.append(so)
+        return {"info0": info0, "steps": steps, "info": info_json(g.dataset_info)}
+    out, _ = run_single(g, case, mk_X(case))
+    out["info0"] = info0
     out["info"] = info_json(g.dataset_info)
     return out
 
